@@ -35,6 +35,7 @@ VersionLaws(ver) ==
      /\ \A fx \in 0..d-1 : FuncVal(ver, 1, 0, fx, 6) \in {0, 1}      \* every function module has a defined value
      /\ \A x \in 0..d-1, y \in 0..d-1 : fm[y+1][x+1] = 1 => FuncVal(ver, 2, 3, x, y) \in {0, 1}
 GlobalLaws ==
+  /\ TableLaws
   /\ \A a \in 0..31, b \in 0..31 : a # b =>
         PopCount(FormatWord((a \div 8) + 1, a % 8) ^^ FormatWord((b \div 8) + 1, b % 8)) >= 7
   /\ \A ec \in 1..4, m \in 0..7 : BchRem(FormatWord(ec, m) ^^ 21522, 1335) = 0
